@@ -793,7 +793,13 @@ fn work_dir(prop: &str) -> PathBuf {
 
 pub fn run_worker(p: &dyn Prop, env: &Env, task: &str, shard: usize, nshards: usize, outfile: &str) -> i32 {
   let mut out = Out::new();
-  p.run(env, task, shard, nshards, &mut out);
+  // a panic outside a guarded case (e.g. the library refusing a valid value while a generator prepares its cases) must not
+  // take the worker's findings with it: it is recorded, and what was gathered so far is still reported
+  let r = catch_unwind(AssertUnwindSafe(|| p.run(env, task, shard, nshards, &mut out)));
+  if r.is_err() {
+    let msg = LAST_PANIC.with(|p| p.borrow().clone());
+    out.fail(env, Viol { sub: format!("worker:{}", task), kind: format!("panic_while_generating:{}", panic_tag(&msg)), case: Case::ints(&[shard as i64, nshards as i64]), key: BTreeMap::new(), desc: format!("task {} shard {}/{}: a library call made while preparing cases (valid arguments) panicked", task, shard, nshards), expected: "no panic on valid input".into(), got: msg });
+  }
   let v = out.to_json(p.id());
   std::fs::write(outfile, serde_json::to_vec(&v).unwrap()).expect("cannot write worker output");
   0
@@ -1028,7 +1034,17 @@ pub fn run_replay(p: &dyn Prop, env: &Env, file: &str) -> i32 {
   let sub = v.get("sub").and_then(|x| x.as_str()).unwrap_or("").to_string();
   let case = Case::from_json(v.get("case").unwrap_or(&Value::Null));
   let mut out = Out::new();
-  if case.pre.is_empty() {
+  if let Some(task) = sub.strip_prefix("worker:") {
+    // a panic outside a case: replay = run that worker shard again in this process
+    let (sh, n) = (case.a.first().cloned().unwrap_or(0) as usize, case.a.get(1).cloned().unwrap_or(1).max(1) as usize);
+    let r = catch_unwind(AssertUnwindSafe(|| p.run(env, task, sh, n, &mut out)));
+    if r.is_err() {
+      let msg = LAST_PANIC.with(|p| p.borrow().clone());
+      println!("VIOLATION property={} replay={}", p.id(), file);
+      println!("  signature={}/panic_while_generating input=task {} shard {}/{} expected=no panic on valid input got={}", sub, task, sh, n, msg);
+      return 1;
+    }
+  } else if case.pre.is_empty() {
     run_case(env, &mut out, &sub, &case, &|e, o, s, c| p.eval(e, o, s, c));
   } else {
     // order-sensitive failure: evaluate what preceded it on a fresh thread first (verdicts discarded), then the case
